@@ -136,11 +136,20 @@ class SRef:
 
 
 class SList:
-    """List of symbolic length: length term and an element function index -> value."""
+    """List of symbolic length: length term and an element function index -> value. Mutable in place (append)."""
 
     def __init__(self, length, elem):
         self.length = length
         self.elem = elem
+
+    def pyvc_method(self, I, name, args, kw):
+        from .builtins import slist_append
+
+        if name == "append":
+            new = slist_append(I, SList(self.length, self.elem), args[0])
+            self.length, self.elem = new.length, new.elem
+            return None
+        raise OutOfReach(f"list.{name} on a list of symbolic length")
 
 
 class ClassRef:
